@@ -116,10 +116,11 @@ class VInt(V):
 class VReal(V):
     kind = 'real'
 
-    def __init__(self, t):
+    def __init__(self, t, inf=None):
         if isinstance(t, (int, float)):
             t = z3.RealVal(repr(t) if isinstance(t, float) else t)
         self.t = t
+        self.inf = inf      # None = finite; else z3 Int in {-1, 0, 1}: extended real (-inf / finite / +inf)
 
     def __repr__(self):
         return f'VReal({self.t})'
